@@ -350,7 +350,7 @@ Section PickleP.
     assert (Hcm : m_models m' = map rm ms /\
                   m_cmap m' = map (fun i => (rm i, map rl (lookup_list cmap i))) ms).
     { unfold snapshot, getstate in Hs. destruct g; simpl in Hs; inversion Hs; subst; clear Hs;
-        unfold setstate, locked_store; simpl; rewrite locked_cmap by assumption; split; reflexivity. }
+        unfold setstate, setstate_gen, locked_store; simpl; rewrite locked_cmap by assumption; split; reflexivity. }
     destruct Hcm as [Hm Hcm]. rewrite Hm, Hcm. repeat split.
     - unfold keys. rewrite map_map. simpl. reflexivity.
     - intros i Hi. unfold lookup_list at 1.
@@ -374,7 +374,7 @@ Section PickleP.
     destruct Hwf as [[[[Hnd _] _] _] _]. apply nodupb_NoDup in Hnd.
     assert (Hnd' : NoDup (map rm ms)) by (apply NoDup_map_inj; assumption).
     unfold snapshot, getstate in Hs.
-    destruct l; simpl in Hs; inversion Hs; subst; clear Hs; unfold setstate; simpl;
+    destruct l; simpl in Hs; inversion Hs; subst; clear Hs; unfold setstate, setstate_gen; simpl;
       rewrite (build_nodup (fun i : ident => i)) by (rewrite map_id; assumption);
       (repeat split; [rewrite keys_map_key; reflexivity |
        intros i Hi; rewrite lookup_map_key by (apply in_map; assumption);
@@ -435,7 +435,7 @@ Section PickleP.
     destruct g, l; simpl in *.
     - (* locked graph class: both protocols *)
       unfold snapshot, getstate in Hs. simpl in Hs. inversion Hs; subst; clear Hs.
-      unfold setstate, resolve, normalize, reach_locks, locked_store; simpl.
+      unfold setstate, setstate_gen, resolve, normalize, reach_locks, locked_store; simpl.
       rewrite locked_cmap by assumption.
       rewrite (build_nodup (fun i : ident => i)) by (rewrite map_id; assumption).
       rewrite (map_map (fun i => (i, lookup_list cmap i)) snd). simpl.
@@ -449,7 +449,7 @@ Section PickleP.
     - (* graph class, GraphMachine hooks *)
       assert (cmap = []) by (apply (wf_nil false); auto). subst cmap. simpl in *.
       unfold snapshot, getstate in Hs. simpl in Hs. inversion Hs; subst; clear Hs.
-      unfold setstate, resolve, normalize, reach_locks; simpl.
+      unfold setstate, setstate_gen, resolve, normalize, reach_locks; simpl.
       rewrite build_nodup by (rewrite map_id; assumption).
       f_equal.
       + apply (locks_copy_list rl w _ (mctx ++ [])); auto.
@@ -463,7 +463,7 @@ Section PickleP.
     - (* locked class, LockedMachine hooks *)
       assert (graphs = []) by (apply (wf_nil false); auto). subst graphs.
       unfold snapshot, getstate in Hs. simpl in Hs. inversion Hs; subst; clear Hs.
-      unfold setstate, resolve, normalize, reach_locks, locked_store; simpl.
+      unfold setstate, setstate_gen, resolve, normalize, reach_locks, locked_store; simpl.
       rewrite locked_cmap by assumption.
       rewrite (map_map (fun i => (i, lookup_list cmap i)) snd). simpl.
       fold R. fold (locks_after rl w R). fold (models_after rm w ms).
@@ -475,7 +475,7 @@ Section PickleP.
       assert (cmap = []) by (apply (wf_nil false); auto). subst cmap.
       assert (graphs = []) by (apply (wf_nil false); auto). subst graphs. simpl in *.
       unfold snapshot, getstate in Hs. simpl in Hs. inversion Hs; subst; clear Hs.
-      unfold setstate, resolve, normalize, reach_locks; simpl.
+      unfold setstate, setstate_gen, resolve, normalize, reach_locks; simpl.
       f_equal.
       + apply (locks_copy_list rl w _ (mctx ++ [])); auto.
         * intros l Hl. apply Hfrl; assumption.
@@ -586,7 +586,7 @@ Section PickleP.
         apply in_concat in Hx. destruct Hx as [L [HL Hx]]. apply in_map_iff in HL. destruct HL as [i1 [Hi1 _]]. subst L.
         apply in_map_iff in Hx. destruct Hx as [l0 [H1 H2]]. exists l0.
         split; [apply in_or_app; right; eapply in_lookup_list; eauto | auto]. }
-    destruct g, l; simpl in Hs; inversion Hs; subst; clear Hs; unfold setstate, all_locks, locked_store; simpl;
+    destruct g, l; simpl in Hs; inversion Hs; subst; clear Hs; unfold setstate, setstate_gen, all_locks, locked_store; simpl;
       (split; [reflexivity|]); try (rewrite locked_cmap by assumption; exact Hlk); apply Hgen; simpl; auto.
   Qed.
 
@@ -849,6 +849,47 @@ Section PickleP.
     { induction s as [|o r IH]; intros m Hm; simpl; [assumption | apply IH, wf_tab_step; assumption]. }
     apply G0, wf_init. assumption.
   Qed.
+  (* ------------------------------------------------------------- unpickling entered through a model *)
+  Lemma snapshot_via_nongraph : forall j rm rl (w : world) (m : machine),
+    k_graph (m_cls m) = false -> snapshot_via render j rm rl w m = snapshot render rm rl w m.
+  Proof.
+    intros j rm rl w m Hg. destruct m as [[g n l a] c q ms mctx cmap graphs qkeys]. simpl in Hg. subst g.
+    unfold snapshot_via, snapshot, getstate. destruct l; simpl; reflexivity.
+  Qed.
+
+  (* graph classes: every table as after an ordinary snapshot, except that the graph of the entry
+     model is generated without a state ("Could not set active state of diagram") *)
+  Lemma snapshot_via_graph : forall j rm rl (w w' : world) (m m' : machine),
+    wf m = true -> fresh rm rl w m = true ->
+    k_graph (m_cls m) = true -> In j (m_models m) ->
+    snapshot_via render j rm rl w m = Some (w', m') ->
+    (exists m0, snapshot render rm rl w m = Some (w', m0) /\
+                m_models m' = m_models m0 /\ m_mctx m' = m_mctx m0 /\ m_cmap m' = m_cmap m0 /\
+                m_qkeys m' = m_qkeys m0 /\ m_cfg m' = m_cfg m0) /\
+    keys (m_graphs m') = m_models m' /\
+    lookup (m_graphs m') (rm j) = Some (render (m_cfg m) None) /\
+    (forall i, In i (m_models m) -> i <> j ->
+       lookup (m_graphs m') (rm i) = Some (render (m_cfg m) (state_of w i))).
+  Proof.
+    intros j rm rl w w' m m' Hwf Hfr Hg Hj Hs.
+    destruct (fresh_spec _ _ _ _ Hfr) as [Hinjm [_ [Hfrm _]]].
+    destruct m as [[g n l a] c q ms mctx cmap graphs qkeys]. simpl in *. subst g.
+    unfold wf in Hwf. simpl in Hwf. repeat rewrite andb_true_iff in Hwf.
+    destruct Hwf as [[[[Hnd _] _] _] _]. apply nodupb_NoDup in Hnd.
+    assert (Hnd' : NoDup (map rm ms)) by (apply NoDup_map_inj; assumption).
+    unfold snapshot_via, snapshot, getstate in *.
+    destruct l; simpl in Hs; inversion Hs; subst; clear Hs; unfold setstate, setstate_gen; simpl;
+      rewrite !(build_nodup (fun i : ident => i)) by (rewrite map_id; assumption);
+      (split; [eexists; split; [reflexivity | repeat split; reflexivity] |
+       split; [rewrite keys_map_key; reflexivity |
+       split; [rewrite lookup_map_key by (apply in_map; assumption); rewrite Nat.eqb_refl; reflexivity |
+       intros i Hi Hne; rewrite lookup_map_key by (apply in_map; assumption);
+       destruct (Nat.eqb (rm i) (rm j)) eqn:E;
+       [apply Nat.eqb_eq in E; exfalso; apply Hne; apply Hinjm; assumption |
+        f_equal; f_equal; unfold state_of; simpl; f_equal;
+        apply (model_copy rm w ms i); auto; apply Hfrm; assumption]]]]).
+  Qed.
+
   (* pickling never raises in the model: in particular not for unhashable models (fix 3c0ca68) *)
   Lemma pickles_always : forall rm rl (w : world) (m : machine),
     exists w' m', snapshot render rm rl w m = Some (w', m').
@@ -923,4 +964,22 @@ Proof.
   exists (fold_left (tab_step xrender xworld) [TAdd 10 []; TAdd 11 []]
             (init_machine (mkCls false false false true) 7 true [])).
   exists (xplus 100), (xplus 100). eexists; eexists. repeat split; reflexivity.
+Qed.
+
+(* GraphMachine pickled THROUGH its first model (pickle.dumps(model)): the copy of that model gets a graph
+   that styles no state as active, unlike a regenerated graph of the original *)
+Definition xgraph : machine nat (nat * option nat) :=
+  fold_left (tab_step xrender xworld) [TAdd 10 []; TAdd 11 []]
+            (init_machine (mkCls true false false false) 7 false []).
+
+Lemma ex_via_model_graph :
+  wf xgraph = true /\ fresh (xplus 100) (xplus 100) xworld xgraph = true /\ guard xgraph = true /\
+  exists w' m', snapshot_via xrender 10 (xplus 100) (xplus 100) xworld xgraph = Some (w', m') /\
+    m_models m' = [110; 111] /\
+    m_graphs m' = [(110, (7, None)); (111, (7, Some 1))] /\
+    map pm_graph (pv_models (normalize xrender (resolve xworld xgraph))) = [Some (7, Some 0); Some (7, Some 1)] /\
+    resolve w' m' <> normalize xrender (resolve xworld xgraph).
+Proof.
+  repeat split; try reflexivity. eexists; eexists. repeat split; try reflexivity.
+  intro H. apply (f_equal (fun v => map pm_graph (pv_models v))) in H. vm_compute in H. discriminate.
 Qed.
